@@ -13,7 +13,7 @@
    lists every node that has a parent, once.  Non-vacuity: C04/Examples.v. *)
 From Coq Require Import List ZArith Bool.
 From TskVerif Require Import Base.Common C04.Model C04.ForestProofs C04.ReduceProofs
-  C04.IdemProofs C04.GenoProofs C04.SpecProofs C04.Examples.
+  C04.IdemProofs C04.GenoProofs C04.SpecProofs C04.Examples C04.SimplifyAlg C04.OverlapProofs C04.ExtractProofs.
 Import ListNotations.
 
 (* (a) every chosen sample is retained *)
@@ -137,3 +137,49 @@ Theorem simplify_isolated_root_refuted :
     unreferenced_nodes (simplify_spec t smp o) smp <> [] /\
     spec_idempotent_on t smp o = false.
 Proof. exact simplify_isolated_root_refuted_lemma. Qed.
+
+(* About the model of the C ALGORITHM (C04/SimplifyAlg.v), the one proved component: the
+   segment overlapper (segment_overlapper_start/_next).  For well-formed queued segments
+   the emitted pieces are non-empty intervals, each carrying exactly the queued segments
+   that cover it, increasing and disjoint, and every covered point lies in a piece (hence
+   the fuel of the model loop always suffices). *)
+Theorem overlapper_partition :
+  forall (t : tables) (Q : list seg),
+    (forall s, In s Q -> (seg_l s < seg_r s)%Z /\ (seg_r s <= t_L t)%Z) ->
+    let P := overlaps t Q in
+    (forall l r Y, In (l, r, Y) P ->
+       (l < r)%Z /\ Y <> [] /\
+       (forall s, In s Y -> In s Q /\ (seg_l s <= l)%Z /\ (r <= seg_r s)%Z) /\
+       (forall s, In s Q -> (seg_l s <= l < seg_r s)%Z -> In s Y)) /\
+    (exists r0, ordered r0 P) /\
+    (forall s x, In s Q -> (seg_l s <= x < seg_r s)%Z ->
+       exists l r Y, In (l, r, Y) P /\ (l <= x < r)%Z /\ In s Y).
+Proof. exact overlapper_partition_lemma. Qed.
+
+(* simplifier_extract_ancestry (model): the queued segments are exactly the parts of the
+   child's ancestry inside [lft, rgt), the segments left behind exactly the parts outside;
+   output nodes unchanged, all segments non-empty *)
+Theorem extract_ancestry_splits :
+  forall (a : list seg) (lft rgt : Z),
+    (lft < rgt)%Z -> (forall s, In s a -> (seg_l s < seg_r s)%Z) ->
+    let '(q, rem) := extract_ancestry a lft rgt in
+    (forall s, In s q -> (seg_l s < seg_r s)%Z /\ (lft <= seg_l s)%Z /\ (seg_r s <= rgt)%Z) /\
+    (forall s, In s rem -> (seg_l s < seg_r s)%Z) /\
+    (forall x n, carries q x n <-> carries a x n /\ (lft <= x < rgt)%Z) /\
+    (forall x n, carries rem x n <-> carries a x n /\ ~ (lft <= x < rgt)%Z).
+Proof. exact extract_ancestry_splits_lemma. Qed.
+
+(* filter_sites is exact in the specification: off = the site table is untouched; on = a
+   site survives iff one of its mutations is inherited by a chosen sample (its node has a
+   mutation target at the site's position) *)
+Theorem spec_sites_unfiltered :
+  forall t smp o, o_fs o = false ->
+    r_sites (simplify_spec t smp o) = seq 0 (length (t_sites t)).
+Proof. exact spec_sites_unfiltered_lemma. Qed.
+
+Theorem spec_sites_filtered :
+  forall t smp o s, o_fs o = true ->
+    (In s (r_sites (simplify_spec t smp o)) <->
+     (s < length (t_sites t))%nat /\
+     exists m, In m (t_muts t) /\ fst (fst m) = s /\ spec_target t smp o m <> None).
+Proof. exact spec_sites_filtered_lemma. Qed.
